@@ -4,6 +4,8 @@ KINDS = ["EXECUTE", "PERMIT", "BLOCK", "FAILURE", "DEFER", "UNKNOWN", "RAISE"]
 # further exception types an agent may raise: whatever it is, the request must come back blocked
 RAISE_KINDS = {"RAISE": RuntimeError, "RAISE_TIMEOUT": TimeoutError, "RAISE_VALUE": ValueError, "RAISE_OS": ConnectionRefusedError,
                "RAISE_STOP": StopIteration, "RAISE_KEY": KeyError, "RAISE_ASSERT": AssertionError}
+# verdict strings outside the vocabulary ("any unknown verdict ... yields blocked"): empty, fragments and extensions of the real words
+UNKNOWN_KINDS = ["", "P", "PERM", "MIT", "EXEC", "ALLOW", "PERMITTED", "EXECUTE_NOW", "OK"]
 LOGICS = ["AND", "OR", "MAJORITY", "UNANIMOUS", "EXECUTOR_PRIORITY", "ASSESSOR_PRIORITY"]
 
 
